@@ -214,15 +214,37 @@ def unit_heat(bc):
     return res
 
 
+def unit_ehep():
+    from props import ehep_kit as EK
+    res = {'obligations': [], 'functions': EK.functions(), 'engine_errors': []}; O = res['obligations']
+    try: reg = EK.regions()
+    except Unsupported as u_:
+        O.append(core.Obl('C08/ehep/extraction', 'open', 'extraction', 0.0, detail=str(u_)[:300])); return res
+    dims = {EK.x: LEN, EK.t: TIME, EK.D: VEL, EK.rho_0: DENS, EK.up: VEL, EK.xtilde: LEN}
+    sub = scale_sub(dims)
+    outd = {'rho': DENS, 'u': VEL, 'p': PRES, 'e': SIE, 'cs': VEL}
+    for lab, (F, pc, rl) in sorted(reg.items()):
+        for n, dd in outd.items():
+            v = F[n]
+            o = core.prove_zero('C08/ehep/region_%s/%s' % (lab, n), v.subs(sub, simultaneous=True) - mono(dd) * v, [EK.up < EK.D / 4] + pc, goal_text='%s(scaled inputs) == %s * %s(inputs)' % (n, mono(dd), n), extra_syms={lM, lL, lT, lTh})
+            o.pop('cex_raw', None); O.append(o)
+    return res
+
+
 def units(tier):
     us = [('noh', {'kind': 'hydro', 'key': 'noh'}), ('cog19', {'kind': 'hydro', 'key': 'cog19'})]
     us += [(k, {'kind': 'burn', 'key': k}) for k in ('k1_2d', 'k2_2d', 'k3_2d', 'dsd')]
     us += [('blake', {'kind': 'blake'})] + [('ep_piston/' + m, {'kind': 'piston', 'model': m}) for m in ('hypo', 'hyperIfin', 'hyperFin')]
     us += [('riemann/' + p, {'kind': 'riemann', 'pat': p}) for p in ('SCS', 'SCR', 'RCS', 'RCR')] + [('rod1d/' + b, {'kind': 'heat', 'bc': b}) for b in ('BC1', 'BC2', 'BC3', 'BC4')]
+    us += [('mader', {'kind': 'mader'}), ('ehep', {'kind': 'ehep'})]
     return us
 
 
 def run_unit(name, kind, key=None, model=None, pat=None, bc=None):
+    if kind == 'mader':
+        from props import mader_kit
+        return mader_kit.unit('C08')
+    if kind == 'ehep': return unit_ehep()
     if kind == 'hydro': return unit_hydro(key)
     if kind == 'burn': return unit_burn(key)
     if kind == 'blake': return unit_blake()
